@@ -163,6 +163,84 @@ theorem mem_solMtuTerms {s : Sol} {t : Nat} :
       · exact Or.inr ht
       · exact Or.inl ht
 
+/-- example of a well-formed segment `3 → 2 → 1` -/
+def segWfEx : Seg :=
+  ⟨100, 7, [⟨3, 1500, 0, ⟨63, 0, 31, 1⟩, []⟩, ⟨2, 1400, 1472, ⟨63, 21, 22, 2⟩, []⟩,
+            ⟨1, 9000, 1300, ⟨10, 11, 0, 3⟩, []⟩], 5⟩
+
+/-! ## 5b. metadata: interfaces and endpoints -/
+
+/-- **The interface list names the links encoded in the hop fields, in travel order.**  If the first
+AS entry of every given segment has no ingress interface (it originated the beacon), then for every
+offered path the ids of `metadata.interfaces` are exactly what one reads off its data-plane segments
+(`Spec.segIds`): per segment, in travel order, the non-zero ConsIngress / ConsEgress of every hop field
+(swapped when travelling against construction direction), except the ConsIngress of the hop field at
+the construction-start of a non-peering segment — that is where the path enters or leaves the segment
+(source, destination, segment change, shortcut).  (That the AS of each listed interface is the AS the
+hop field belongs to is part of `sound`: `Spec.Piece.consIfs` pairs every id with its AS entry.) -/
+theorem interfaces_match_hops {src dst : Nat} {cores nonCores : List Seg} {out : List Path}
+    (h : combine src dst cores nonCores = .ok out) {p : Path} (hp : p ∈ out)
+    (hz : ∀ s ∈ inputSegs cores nonCores, FirstIngressZero s.seg) :
+    p.ifs.map (·.2) = p.segs.flatMap Spec.segIds := by
+  rcases sound h hp with ⟨c, hv, hr, _, _⟩
+  unfold Spec.realises at hr
+  injection hr with h1 h2
+  rw [← h1, ← h2, List.map_flatMap, List.flatMap_map]
+  apply flatMap_congr'
+  intro pc hpc
+  have := hv.pieces pc hpc
+  exact piece_ifs_ids pc this.1.cut_lt (hz _ this.2)
+
+/-- **Source and destination match the request** for well-formed segments (`SegWf`: at least two AS
+entries, egress interface on all but the last, ingress interface on all but the first, peering hop
+fields name their peering interface). -/
+theorem endpoints {src dst : Nat} {cores nonCores : List Seg} {out : List Path}
+    (h : combine src dst cores nonCores = .ok out) {p : Path} (hp : p ∈ out)
+    (hwf : ∀ s ∈ inputSegs cores nonCores, SegWf s.seg) :
+    p.src = src ∧ p.dst = dst := by
+  rcases sound h hp with ⟨c, hv, hr, hs, hd⟩
+  unfold Spec.realises at hr
+  injection hr with h1 h2
+  constructor
+  · cases hc : c.head? with
+    | none => have := hv.start; rw [hc] at this; cases this
+    | some pc =>
+      have hmem : pc ∈ c := List.mem_of_head? hc
+      have hpv := hv.pieces pc hmem
+      have hst := hv.start
+      rw [hc] at hst
+      rcases piece_ifs_head (hwf _ hpv.2) hpv.1 hst with ⟨i, hi, hia⟩
+      have hne : pc.ifs ≠ [] := by intro e; rw [e] at hi; cases hi
+      have := head?_flatMap_of_head Spec.Piece.ifs c pc hc hne
+      rw [h2, hi] at this
+      rw [this] at hs
+      simp at hs
+      rw [← hs, hia]
+  · cases hc : c.getLast? with
+    | none => have := hv.finish; rw [hc] at this; cases this
+    | some pc =>
+      have hmem : pc ∈ c := List.mem_of_getLast? hc
+      have hpv := hv.pieces pc hmem
+      have hfi := hv.finish
+      rw [hc] at hfi
+      rcases piece_ifs_last (hwf _ hpv.2) hpv.1 hfi with ⟨i, hi, hia⟩
+      have hne : pc.ifs ≠ [] := by intro e; rw [e] at hi; cases hi
+      have := getLast?_flatMap_of_last Spec.Piece.ifs c pc hc hne
+      rw [h2, hi] at this
+      rw [this] at hd
+      simp at hd
+      rw [← hd, hia]
+
+/-- non-vacuity: `upSeg`-like segments satisfy the well-formedness hypotheses -/
+example : SegWf segWfEx ∧ FirstIngressZero segWfEx := by
+  refine ⟨⟨by decide, ?_, ?_, ?_⟩, ?_⟩
+  · intro x hx; revert x; decide
+  · intro x hx; revert x; decide
+  · intro a ha q hq
+    simp [segWfEx] at ha
+    rcases ha with rfl | rfl | rfl <;> simp at hq
+  · intro a ha; simp [segWfEx] at ha; subst ha; rfl
+
 /-! ## 6. the result does not depend on the order or multiplicity of the given segments -/
 
 /-- the sort key of `get_paths` separates the candidate solutions (no two different candidates compare
@@ -234,5 +312,97 @@ theorem candidates_sorted (src dst : Nat) (segs : List InSeg) :
   unfold solLe Sol.key lexLe at h
   simp only [Bool.or_eq_true, Bool.and_eq_true, decide_eq_true_eq] at h
   rcases h with h | ⟨h, _⟩ <;> omega
+
+/-- **Cheapest first, all inputs.**  The offered list is ordered by the cost of the cheapest
+combination that yields each interface sequence: there are candidate solutions `reps` (the first
+representative of every offered interface sequence), in non-decreasing cost order (cost = number of
+traversed inter-AS links, a peering link counting as one), loop-free, such that the i-th offered path
+has the interface list of the i-th representative. -/
+theorem sorted_by_cost {src dst : Nat} {cores nonCores : List Seg} {out : List Path}
+    (h : combine src dst cores nonCores = .ok out) :
+    ∃ reps : List Sol,
+      reps.Sublist (sortedCandidates src dst (inputSegs cores nonCores)) ∧
+      reps.Pairwise (fun a b => a.cost ≤ b.cost) ∧
+      (∀ r ∈ reps, r ∈ candidates (graphOf (inputSegs cores nonCores)) src dst ∧ (offeredIfs r).isSome = true) ∧
+      out.map Path.ifs = reps.filterMap offeredIfs := by
+  by_cases hne : src = dst
+  · simp [combine, hne] at h; subst h
+    exact ⟨[], by simp, by simp, by simp, by simp⟩
+  · rcases combine_eq src dst cores nonCores hne with ⟨ps, hps, hc⟩
+    rw [hc] at h
+    injection h with h
+    subst h
+    refine ⟨repsOf [] (sortedCandidates src dst (inputSegs cores nonCores)), repsOf_sublist _ _, ?_, ?_, ?_⟩
+    · exact List.Pairwise.sublist (repsOf_sublist _ _) (candidates_sorted _ _ _)
+    · intro r hr
+      exact ⟨mem_sortedCandidates.mp ((repsOf_sublist _ _).subset hr), repsOf_offered _ _ r hr⟩
+    · have := dedup_keys _ ps [] hps
+      simp only [List.map_nil, List.nil_append] at this
+      exact this
+
+/-- when the cost of every candidate is the number of links of its path (true for well-formed
+segments: every traversed link contributes one egress and one ingress interface), the offered paths
+are in non-decreasing order of hop count -/
+theorem sorted_by_hop_count {src dst : Nat} {cores nonCores : List Seg} {out : List Path}
+    (h : combine src dst cores nonCores = .ok out)
+    (hlinks : ∀ s ∈ candidates (graphOf (inputSegs cores nonCores)) src dst, ∀ p, solPath s = .path p →
+      p.ifs.length = 2 * s.cost) :
+    (out.map fun p => p.ifs.length).Pairwise (· ≤ ·) := by
+  rcases sorted_by_cost h with ⟨reps, hsub, hpw, hreps, hout⟩
+  clear hsub
+  have : out.map (fun p => p.ifs.length) = (reps.filterMap offeredIfs).map List.length := by
+    rw [← hout, List.map_map]; rfl
+  rw [this]
+  clear this hout
+  induction reps with
+  | nil => simp
+  | cons r rest ih =>
+    have hr := hreps r List.mem_cons_self
+    rw [List.pairwise_cons] at hpw
+    have ih' := ih hpw.2 (fun x hx => hreps x (List.mem_cons_of_mem _ hx))
+    cases hk : offeredIfs r with
+    | none => simp [hk] at hr
+    | some k =>
+      simp only [List.filterMap_cons, hk, List.map_cons, List.pairwise_cons]
+      refine ⟨?_, ih'⟩
+      intro n hn
+      rcases List.mem_map.mp hn with ⟨k', hk', rfl⟩
+      rcases List.mem_filterMap.mp hk' with ⟨r', hr', hk''⟩
+      have hcost := hpw.1 r' hr'
+      have h1 : k.length = 2 * r.cost := by
+        unfold offeredIfs at hk
+        split at hk
+        · rename_i p hp
+          split at hk
+          · cases hk
+          · injection hk with hk; rw [← hk]; exact hlinks r hr.1 p hp
+        · cases hk
+      have h2 : k'.length = 2 * r'.cost := by
+        unfold offeredIfs at hk''
+        split at hk''
+        · rename_i p hp
+          split at hk''
+          · cases hk''
+          · injection hk'' with hk''; rw [← hk'']; exact hlinks r' (hreps r' (List.mem_cons_of_mem _ hr')).1 p hp
+        · cases hk''
+      omega
+
+/-! ## 8. complete (with respect to the multigraph) -/
+
+/-- **Completeness of search, filter and de-duplication, all inputs.**  Take any chain `es` of edges of
+the multigraph that starts at `AS src`, obeys the segment-kind rule at every step (`canStep`), reaches
+`AS dst` with its last edge and not before (`Walk`).  Then it is a candidate solution, and if its path
+exists (encodes) and is loop-free, a path with exactly its interface list is offered, expiring no
+earlier.  (What is *not* proved: that every valid piece of `Spec/Combine.lean` is an edge of the
+multigraph — true when no AS or peering link occurs twice in a segment, so that no `HashMap::insert`
+overwrites an edge; see `complete` in the module comment.) -/
+theorem complete_wrt_graph {src dst : Nat} {cores nonCores : List Seg} {out : List Path}
+    (h : combine src dst cores nonCores = .ok out) (hne : src ≠ dst) (es : List GEdge)
+    (hw : Walk (graphOf (inputSegs cores nonCores)) dst (Sol.new (.as src)) es) :
+    es.foldl stepSol (Sol.new (.as src)) ∈ candidates (graphOf (inputSegs cores nonCores)) src dst ∧
+    ∀ p, solPath (es.foldl stepSol (Sol.new (.as src))) = .path p → hasLoops p = false →
+      ∃ q ∈ out, q.ifs = p.ifs ∧ p.expiry ≤ q.expiry := by
+  have hc := candidates_complete _ src dst es hw
+  exact ⟨hc, fun p hp hl => dedup_keeps_latest h _ hc p hp hl hne⟩
 
 end ScionVerif.Comb
